@@ -183,21 +183,37 @@ VARIANTS = {
 }
 
 
+def _repo_tag():
+    """'' for /repo itself; a short tag for an alternative tree given in VERIF_REPO (mutation
+    testing from a scratch worktree: its own harness copy and cargo target directory)."""
+    if os.path.abspath(REPO) == "/repo":
+        return ""
+    return "-alt" + hashlib.sha256(os.path.abspath(REPO).encode()).hexdigest()[:8]
+
+
 def harness_bin(variant="default"):
     prof = "release" if variant == "release" else "debug"
-    return os.path.join(BUILD, "cargo-" + variant, prof, "vharness")
+    return os.path.join(BUILD, "cargo-" + variant + _repo_tag(), prof, "vharness")
 
 
 def build_harness(variant="default"):
     """cargo build of the harness against /repo's current working tree (incremental, offline)."""
+    import shutil
     hd = os.path.join(VERIF, "harness")
+    if _repo_tag():
+        alt = os.path.join(BUILD, "harness" + _repo_tag())
+        if os.path.exists(alt):
+            shutil.rmtree(alt)
+        shutil.copytree(hd, alt, ignore=shutil.ignore_patterns("target"))
+        ct = open(os.path.join(alt, "Cargo.toml")).read().replace('"/repo', '"' + os.path.abspath(REPO))
+        open(os.path.join(alt, "Cargo.toml"), "w").write(ct)
+        hd = alt
     lock_src = os.path.join(REPO, "Cargo.lock")
     lock_dst = os.path.join(hd, "Cargo.lock")
     if not os.path.exists(lock_dst):
-        import shutil
         shutil.copy(lock_src, lock_dst)
     rc, out = sh(["cargo", "build", "--offline", "-q"] + VARIANTS[variant], cwd=hd, timeout=3000,
-                 env={"CARGO_TARGET_DIR": os.path.join(BUILD, "cargo-" + variant),
+                 env={"CARGO_TARGET_DIR": os.path.join(BUILD, "cargo-" + variant + _repo_tag()),
                       "RUSTFLAGS": "--cfg clvm_rs_verif"})
     return rc == 0, out
 
